@@ -472,3 +472,10 @@ func (w *WSConn) FrameTypes() []int {
 	defer w.mu.Unlock()
 	return append([]int(nil), w.Frames...)
 }
+
+// SetAutoAck switches automatic acknowledgement on or off (safe while the reader runs).
+func (c *Client) SetAutoAck(on bool) {
+	c.mu.Lock()
+	c.AutoAck = on
+	c.mu.Unlock()
+}
